@@ -54,8 +54,11 @@ Theorem C12_history_independence_general :
 Proof. exact history_independence_gen. Qed.
 Print Assumptions C12_history_independence_general.
 
-(* the model with the four stale reads removed (the suggested fixes): EVERY history, every
-   single-call probe on a self-contained stream / image (getters: after a header call) *)
+(* (2') the source AS IT IS NOW (F5, F9, F10, F11, F12 fixed): for ALL finite histories of calls of
+   ANY kind, with any arguments, failing at any stage, no call touches freed memory, and every
+   single-call probe on a self-contained stream / image observes on the used instance exactly what
+   it observes on a fresh instance with the same parameters.  plain_probe excludes the two getters
+   (next theorem) and, as long as the translator does not find F13 fixed, tj3DecodeYUV* *)
 Definition history_independence_full (fx : fixes) : Prop :=
   forall (h : list call) (c : call) ic id,
   is_selfc (c_kind c) = true -> getter (c_kind c) = false ->
@@ -64,6 +67,57 @@ Definition history_independence_full (fx : fixes) : Prop :=
   fst (probe fx [c] (xs x) (xd x)) = fst (probe fx [c] (fresh_like (xs x)) dest0) /\
   snd (probe fx [c] (xs x) (xd x)) = None /\ snd (probe fx [c] (fresh_like (xs x)) dest0) = None.
 
+Theorem C12_history_independence_partial :
+  forall (h : list call) (c : call) ic id,
+  is_selfc (c_kind c) = true -> plain_probe (c_kind c) = true ->
+  let x := run faithful h (init_x ic id) in
+  xerr x = None /\
+  fst (probe faithful [c] (xs x) (xd x)) = fst (probe faithful [c] (fresh_like (xs x)) dest0) /\
+  snd (probe faithful [c] (xs x) (xd x)) = None /\ snd (probe faithful [c] (fresh_like (xs x)) dest0) = None.
+Proof.
+  exact (fun h c ic id Hs Hp =>
+           history_independence_gen faithful h [c] ic id
+             (proj2 (Forall_forall _ h) (fun c' _ => ok_hist_faithful (c_kind c')))
+             (ok_probe_faithful (c_kind c) Hs Hp)).
+Qed.
+Print Assumptions C12_history_independence_partial.
+
+(* the getters report what tj3DecompressHeader left: probed after a header call with valid arguments *)
+Theorem C12_getters_after_header :
+  forall (h : list call) (a1 a2 : list (string * Z)) (g : opk) ic id,
+  g = KGetICC \/ g = KTransformBufSize ->
+  let x := run faithful h (init_x ic id) in
+  let cs := [mkcall (KHeader true true) a1; mkcall g a2] in
+  fst (probe faithful cs (xs x) (xd x)) = fst (probe faithful cs (fresh_like (xs x)) dest0).
+Proof.
+  exact (fun h a1 a2 g ic id Hg =>
+           proj1 (proj2 (history_independence_gen faithful h [mkcall (KHeader true true) a1; mkcall g a2] ic id
+             (proj2 (Forall_forall _ h) (fun c' _ => ok_hist_faithful (c_kind c')))
+             (match Hg with
+              | or_introl e => eq_ind_r (fun g0 => ok_probe faithful [KHeader true true; g0] = true) (proj1 ok_probe_getters_faithful) e
+              | or_intror e => eq_ind_r (fun g0 => ok_probe faithful [KHeader true true; g0] = true) (proj2 ok_probe_getters_faithful) e
+              end)))).
+Qed.
+Print Assumptions C12_getters_after_header.
+
+(* tj3DecodeYUV*: everything it reads is (re)defined by the call itself (F10, F12 fixed) except the
+   permanent Huffman table slots (F13): with that read taken out the probe passes ... *)
+Theorem C12_decodeyuv_apart_from_huffman_slots : forall m, ok_probe faithful_but_f13 [KDecodeYUV m] = true.
+Proof. exact decodeyuv_ok_but_f13. Qed.
+Print Assumptions C12_decodeyuv_apart_from_huffman_slots.
+(* ... and with it the full statement is refuted for the source as it is (witness replayed by corpus/C12);
+   once the translator finds it fixed, the positive statement is the obligation *)
+Theorem C12_stale_huffman_slot_refuted :
+  decodeyuv_ignores_huffman_slots = false ->
+  fst (res_used faithful f13_history f13_probe false true) <> fst (res_fresh faithful f13_history f13_probe false true).
+Proof. exact f13_witness. Qed.
+Print Assumptions C12_stale_huffman_slot_refuted.
+Theorem C12_stale_huffman_slot_when_fixed :
+  decodeyuv_ignores_huffman_slots = true -> forall m, ok_probe faithful [KDecodeYUV m] = true.
+Proof. exact f13_fixed. Qed.
+Print Assumptions C12_stale_huffman_slot_when_fixed.
+
+(* the model with every known stale read removed: the full statement *)
 Theorem C12_history_independence_fixed_model : history_independence_full all_fixed.
 Proof.
   exact (fun h c ic id Hs Hg =>
@@ -73,100 +127,47 @@ Proof.
 Qed.
 Print Assumptions C12_history_independence_fixed_model.
 
-Theorem C12_getters_after_header_fixed_model :
-  forall (h : list call) (a1 a2 : list (string * Z)) (g : opk) ic id,
-  g = KGetICC \/ g = KTransformBufSize ->
-  let x := run all_fixed h (init_x ic id) in
-  let cs := [mkcall (KHeader true) a1; mkcall g a2] in
-  fst (probe all_fixed cs (xs x) (xd x)) = fst (probe all_fixed cs (fresh_like (xs x)) dest0).
-Proof.
-  exact (fun h a1 a2 g ic id Hg =>
-           proj1 (proj2 (history_independence_gen all_fixed h [mkcall (KHeader true) a1; mkcall g a2] ic id
-             (proj2 (Forall_forall _ h) (fun c' _ => ok_hist_fixed (c_kind c')))
-             (match Hg with
-              | or_introl e => eq_ind_r (fun g0 => ok_probe all_fixed [KHeader true; g0] = true) (proj1 ok_probe_getters_fixed) e
-              | or_intror e => eq_ind_r (fun g0 => ok_probe all_fixed [KHeader true; g0] = true) (proj2 ok_probe_getters_fixed) e
-              end)))).
-Qed.
-Print Assumptions C12_getters_after_header_fixed_model.
+(* the five fixes are present in the source (facts regenerated on this run) *)
+Theorem C12_fixes_present :
+  skip_ignores_stale_cconvert = true /\ header_discards_old_icc = true /\ decodeyuv_resets_lossless = true /\
+  decodeyuv_resets_marker_flags = true /\ copy_critical_sets_precision_first = true /\ dest_forgets_newbuffer = true.
+Proof. exact (conj eq_refl (conj eq_refl (conj eq_refl (conj eq_refl (conj eq_refl eq_refl))))). Qed.
+Print Assumptions C12_fixes_present.
 
-(* the model of the source AS IT IS: proved for the histories without a cropped decompression
-   that selects merged upsampling, and the probes that are not one of the stale readers *)
-Theorem C12_history_independence_partial :
-  forall (h : list call) (c : call) ic id,
-  Forall (fun c' => crop_merged (c_kind c') = false) h ->
-  is_selfc (c_kind c) = true -> plain_probe (c_kind c) = true ->
-  let x := run faithful h (init_x ic id) in
-  xerr x = None /\
-  fst (probe faithful [c] (xs x) (xd x)) = fst (probe faithful [c] (fresh_like (xs x)) dest0) /\
-  snd (probe faithful [c] (xs x) (xd x)) = None /\ snd (probe faithful [c] (fresh_like (xs x)) dest0) = None.
-Proof.
-  exact (fun h c ic id Hh Hs Hp =>
-           history_independence_gen faithful h [c] ic id
-             (Forall_impl _ (fun c' H => ok_hist_faithful (c_kind c') H) Hh)
-             (ok_probe_faithful (c_kind c) Hs Hp)).
-Qed.
-Print Assumptions C12_history_independence_partial.
+(* regressions: the model of the current source with exactly one fix taken out again shows the old
+   defect on the old witness history (replayed on the implementation from corpus/C12), the fixed
+   model does not *)
+Theorem C12_F5_regression :
+  snd (res_used without5 f5_history f5_probe false true) = Some (UseAfterFree (OD, "cconvert")) /\
+  snd (res_fresh without5 f5_history f5_probe false true) = None /\
+  res_used all_fixed f5_history f5_probe false true = res_fresh all_fixed f5_history f5_probe false true.
+Proof. exact f5_regression. Qed.
+Print Assumptions C12_F5_regression.
+Theorem C12_F9_regression :
+  fst (res_used without9 f9_history f9_probe false true) <> fst (res_fresh without9 f9_history f9_probe false true) /\
+  res_used all_fixed f9_history f9_probe false true = res_fresh all_fixed f9_history f9_probe false true.
+Proof. exact f9_regression. Qed.
+Print Assumptions C12_F9_regression.
+Theorem C12_F10_regression :
+  fst (res_used without10 f10_history f10_probe false true) <> fst (res_fresh without10 f10_history f10_probe false true) /\
+  res_used all_fixed f10_history f10_probe false true = res_fresh all_fixed f10_history f10_probe false true.
+Proof. exact f10_regression. Qed.
+Print Assumptions C12_F10_regression.
+Theorem C12_F12_regression :
+  fst (res_used without12 f12_history f12_probe false true) <> fst (res_fresh without12 f12_history f12_probe false true) /\
+  res_used all_fixed f12_history f12_probe false true = res_fresh all_fixed f12_history f12_probe false true.
+Proof. exact f12_regression. Qed.
+Print Assumptions C12_F12_regression.
+Theorem C12_F11_regression :
+  fst (res_used without11 f11_history f11_probe true true) <> fst (res_fresh without11 f11_history f11_probe true true) /\
+  res_used all_fixed f11_history f11_probe true true = res_fresh all_fixed f11_history f11_probe true true.
+Proof. exact f11_regression. Qed.
+Print Assumptions C12_F11_regression.
 
-(* ... and the full statement is refuted for the source as it is, one witness per stale read
-   (each stated under the generated fact that the corresponding fix is absent, together with
-   the positive statement that becomes the obligation once the fact flips) *)
-Theorem C12_stale_cconvert_refuted :
-  skip_ignores_stale_cconvert = false ->
-  snd (res_used f5_history f5_probe false true) = Some (UseAfterFree (OD, "cconvert")) /\
-  snd (res_fresh f5_history f5_probe false true) = None.
-Proof. exact f5_witness. Qed.
-Print Assumptions C12_stale_cconvert_refuted.
-Theorem C12_stale_cconvert_when_fixed :
-  skip_ignores_stale_cconvert = true -> forall k, ok_hist faithful k = true.
-Proof. exact f5_fixed. Qed.
-Print Assumptions C12_stale_cconvert_when_fixed.
-
-Theorem C12_stale_icc_refuted :
-  header_discards_old_icc = false ->
-  fst (res_used f9_history f9_probe false true) <> fst (res_fresh f9_history f9_probe false true).
-Proof. exact f9_witness. Qed.
-Print Assumptions C12_stale_icc_refuted.
-Theorem C12_stale_icc_when_fixed :
-  header_discards_old_icc = true -> ok_probe faithful [KHeader true; KGetICC] = true.
-Proof. exact f9_fixed. Qed.
-Print Assumptions C12_stale_icc_when_fixed.
-
-Theorem C12_stale_lossless_refuted :
-  decodeyuv_resets_lossless = false ->
-  fst (res_used f10_history f10_probe false true) <> fst (res_fresh f10_history f10_probe false true).
-Proof. exact f10_witness. Qed.
-Print Assumptions C12_stale_lossless_refuted.
-Theorem C12_stale_marker_flags_refuted :
-  decodeyuv_resets_marker_flags = false ->
-  fst (res_used f12_history f12_probe false true) <> fst (res_fresh f12_history f12_probe false true).
-Proof. exact f12_witness. Qed.
-Print Assumptions C12_stale_marker_flags_refuted.
-Theorem C12_stale_lossless_when_fixed :
-  decodeyuv_resets_lossless = true -> decodeyuv_resets_marker_flags = true -> forall m, ok_probe faithful [KDecodeYUV m] = true.
-Proof. exact f10_fixed. Qed.
-Print Assumptions C12_stale_lossless_when_fixed.
-
-Theorem C12_stale_precision_refuted :
-  copy_critical_sets_precision_first = false ->
-  fst (res_used f11_history f11_probe true true) <> fst (res_fresh f11_history f11_probe true true).
-Proof. exact f11_witness. Qed.
-Print Assumptions C12_stale_precision_refuted.
-Theorem C12_stale_precision_when_fixed :
-  copy_critical_sets_precision_first = true -> ok_probe faithful [KTransform true] = true.
-Proof. exact f11_fixed. Qed.
-Print Assumptions C12_stale_precision_when_fixed.
-
-(* non-vacuity: the witness histories are made of calls admitted by the partial theorem's
-   history hypothesis, and the hypotheses of the partial theorem are satisfiable *)
-Example C12_witness_histories_admitted :
-  Forall (fun c => ok_hist faithful (c_kind c) = true) (f5_history ++ f9_history ++ f10_history ++ f11_history ++ f12_history).
-Proof. exact witness_histories_ok. Qed.
-Example C12_partial_nonvacuous :
-  Forall (fun c' => crop_merged (c_kind c') = false) (f5_history ++ f11_history) /\
-  is_selfc (KDecompress B8 true true false) = true /\ plain_probe (KDecompress B8 true true false) = true /\
-  plain_probe (KCompress B12) = true.
-Proof. exact partial_nonvacuous. Qed.
+Example C12_probes_nonvacuous :
+  is_selfc (KDecompress B8 true true true) = true /\ plain_probe (KDecompress B8 true true true) = true /\
+  plain_probe (KTransform true) = true /\ plain_probe (KCompress B12) = true.
+Proof. exact probes_nonvacuous. Qed.
 
 (* (3) what is reset: every parameter member of jpeg_compress_struct that the compressor
    sources read is assigned by jpeg_set_defaults (or its callees), by setCompDefaults before
@@ -205,7 +206,7 @@ Proof. exact f1_regression_data. Qed.
 Print Assumptions C12_F1_regression.
 Theorem C12_F2_regression :
   d_doublefree (xd (run faithful f2_history (init_x true false))) = negb dest_forgets_newbuffer /\
-  d_doublefree (xd (run (mkfix true true true true false true) f2_history (init_x true false))) = true /\
+  d_doublefree (xd (run without2 f2_history (init_x true false))) = true /\
   d_doublefree (xd (run all_fixed f2_history (init_x true false))) = false.
 Proof. exact f2_regression_lemma. Qed.
 Print Assumptions C12_F2_regression.
